@@ -1243,7 +1243,9 @@ func (w *c03World) mainProduct(l *c03Local, t10 int, job c03Job, reduced bool, m
 
 // deviations: single-deviation negatives around a base candidate whose expels
 // are signed by every other node (or by exactly the required number).
-func (w *c03World) deviations(l *c03Local, t10 int, emask int) {
+// thin (n>=6 and the quick n=5): bases over the two facts {A,B} (with the expel facts of E) in which at
+// most one non-expelled node is absent; otherwise every assignment over {A_E, B_E, A}.
+func (w *c03World) deviations(l *c03Local, t10 int, emask int, thin bool) {
 	n := w.n
 	targets := c03Bits(emask)
 
@@ -1256,6 +1258,10 @@ func (w *c03World) deviations(l *c03Local, t10 int, emask int) {
 	}
 
 	menu := c03Menu(emask, true)
+	if thin {
+		menu = menu[:2]
+	}
+
 	bc := &c03Cand{ExpelVP: emask != 0}
 	bc.Expels = make([]c03Expel, len(targets))
 
@@ -1282,6 +1288,10 @@ func (w *c03World) deviations(l *c03Local, t10 int, emask int) {
 	}
 
 	c03ForEachAssignment(voters, menu, func(votes []c03Vote) {
+		if thin && len(votes) < len(voters)-1 {
+			return
+		}
+
 		bc.Votes = votes
 		bc.Maj = c03NaturalMajority(n, t10, bc)
 
@@ -1658,7 +1668,7 @@ func c03RunConfig(r *vlib.Run, cfg c03Config, workers int, stop *atomic.Bool) {
 			}
 		}
 
-		jobs = append(jobs, func(l *c03Local) { w.deviations(l, cfg.t10, emask) })
+		jobs = append(jobs, func(l *c03Local) { w.deviations(l, cfg.t10, emask, cfg.reduced) })
 	}
 
 	if cfg.t10 == 670 && n >= 2 && n <= 6 {
